@@ -1035,7 +1035,7 @@ fn page_diff(pre: &[u8], post: &[u8], bump: usize) -> (usize, usize, bool, bool)
 /// with the `meta` page as it was BEFORE it, and the committed map as it was before it (`expected.txt`).  The Lean
 /// driver decodes it (`placement-oldmeta <dir>`): it must pass the beatree part of `wfImage` and abstract to the
 /// PRE state — i.e. no page the previous state reads was touched by the operation.
-fn old_meta_dir(live: &str, snap: &str, pre: &crate::db::Map) -> std::io::Result<OldMetaLine> {
+fn old_meta_dir(live: &str, snap: &str, pre: &crate::db::Map, maxlog: u32) -> std::io::Result<OldMetaLine> {
     use std::io::Write;
     let om = format!("{snap}/om");
     std::fs::create_dir_all(&om)?;
@@ -1069,6 +1069,19 @@ fn old_meta_dir(live: &str, snap: &str, pre: &crate::db::Map) -> std::io::Result
         std::fs::File::open(format!("{snap}/{name}"))?.take(post.len() as u64).read_to_end(&mut pre)?;
         Ok((pre, post, full < pre_len))
     };
+    // rollback-log side: the segments as they were before (pre/) and as they are after the operation, and the POST meta page
+    std::fs::create_dir_all(format!("{om}/pre"))?;
+    std::fs::write(format!("{om}/meta.post"), &meta_post)?;
+    std::fs::write(format!("{om}/maxlog.txt"), maxlog.to_string())?;
+    for (src, dst) in [(snap.to_string(), format!("{om}/pre")), (live.to_string(), om.clone())] {
+        for ent in std::fs::read_dir(&src)? {
+            let ent = ent?;
+            let name = ent.file_name().to_string_lossy().to_string();
+            if name.starts_with("rollback.") {
+                crate::image::sparse_copy(&ent.path(), std::path::Path::new(&format!("{dst}/{name}")))?;
+            }
+        }
+    }
     let (ln_pre, ln_post, ln_shrunk) = trimmed("ln", ln_bump)?;
     let (bbn_pre, bbn_post, bbn_shrunk) = trimmed("bbn", bbn_bump)?;
     let mut f = std::io::BufWriter::new(std::fs::File::create(format!("{om}/expected.txt"))?);
@@ -1122,6 +1135,7 @@ pub fn placement(args: &[String], out: &mut Sink) {
         {
             let lines = lines.clone();
             let om_lines = om_lines.clone();
+            let maxlog = cfg.maxlog;
             let mut pre_map: Option<crate::db::Map> = None;
             let dir = dir.clone();
             let root = root.clone();
@@ -1139,7 +1153,7 @@ pub fn placement(args: &[String], out: &mut Sink) {
                     pre_map = if oldmeta { Some(op.committed.clone()) } else { None };
                 } else if !snap.is_empty() {
                     if let Some(pm) = pre_map.take() {
-                        match old_meta_dir(&dir, &snap, &pm) {
+                        match old_meta_dir(&dir, &snap, &pm, maxlog) {
                             Ok(l) => om_lines.lock().unwrap().push(OldMetaLine { what: op.what.to_string(), ..l }),
                             Err(e) => om_lines.lock().unwrap().push(OldMetaLine { dir: String::new(), what: format!("{}: {e}", op.what), ..Default::default() }),
                         }
